@@ -5,3 +5,4 @@ import NutilsVerif.Props.C01
 import NutilsVerif.Props.Poly
 import NutilsVerif.Props.C01Driver
 import NutilsVerif.Props.C10
+import NutilsVerif.Props.C12
